@@ -1120,7 +1120,15 @@ def sdict_get_raw(ctx, fr, d, key, default):
             c2 = AND(cond, pr)
             if c2 is False:
                 continue
-            res = v if (first and res is None and c2 is True) else merge(c2, v, res)
+            if first and res is None:
+                # no default to fall back to (d[key] raises when absent; d.get(key) yields None only
+                # when no candidate is present): the first candidate's value is the base of the chain
+                try:
+                    res = v if c2 is True else merge(c2, v, None)
+                except Unsupported:
+                    res = v
+            else:
+                res = merge(c2, v, res)
             first = False
     return res
 
